@@ -55,6 +55,9 @@ func (x *Exec) lvOf(st *State, e ast.Expr) *lval {
 		if sel.Kind() != types.FieldVal {
 			panic(unsupported("method value as lvalue"))
 		}
+		if len(sel.Index()) == 1 && x.lvWrite {
+			x.ownCheck(st, e.X, e.Sel.Name, true, e.Pos())
+		}
 		// walk the (possibly promoted) field path
 		var cur *lval
 		t := x.typeOf(e.X)
@@ -480,6 +483,9 @@ func (x *Exec) evSelector(st *State, e *ast.SelectorExpr) Val {
 		// method value (e.g. passing a method as a handler)
 		x.ev(st, e.X)
 		return x.freshVal("methodval", x.typeOf(e))
+	}
+	if len(sel.Index()) == 1 {
+		x.ownCheck(st, e.X, e.Sel.Name, false, e.Pos())
 	}
 	cur := x.ev(st, e.X)
 	t := x.typeOf(e.X)
